@@ -281,3 +281,15 @@ func learnAutomaton(b *binding) (*learnReport, error) {
 	}
 	return rep, nil
 }
+
+// probeInitial observes the state and agency a fresh real object starts in, from
+// positive evidence only (see whoHasAgency).
+func probeInitial(b *binding, role protocol.ProtocolRole) (string, agency, error) {
+	l := newLearner(b, role)
+	e := newEng(b, role, true, nil)
+	defer e.close()
+	if e.p.IsDone() {
+		return "", agNone, fmt.Errorf("initial state is terminal")
+	}
+	return l.whoHasAgency(e)
+}
